@@ -379,6 +379,14 @@ func stringParts(p *core.Prog, e *core.Expr) ([]strPart, bool) {
 				return true
 			}
 			return false
+		case e.Op == "call" && (e.Name == "strconv.Itoa" && len(e.Args) == 1 || (e.Name == "strconv.FormatUint" || e.Name == "strconv.FormatInt") && len(e.Args) == 2 && e.Args[1].Name == "10"):
+			// decimal rendering of an integer: what %d prints
+			x := e.Args[0]
+			for x.Op == "conv" && len(x.Args) == 1 {
+				x = x.Args[0]
+			}
+			add(strPart{Val: x, Verb: "d"})
+			return true
 		case e.Op == "call" && e.Name == "fmt.Sprintf":
 			c, ok := e.Val.(*ssa.Call)
 			if !ok || len(e.Args) < 1 || e.Args[0].Op != "const" {
@@ -424,4 +432,61 @@ func stringParts(p *core.Prog, e *core.Expr) ([]strPart, bool) {
 		return nil, false
 	}
 	return out, true
+}
+
+// disjuncts: the boolean v is a φ-encoded `a || b || ...` computed before it
+// is tested: returns the facts any one of which makes it true (nil when v is
+// not of that form).
+func disjuncts(p *core.Prog, v ssa.Value) []core.Fact {
+	ph, ok := v.(*ssa.Phi)
+	if !ok {
+		return nil
+	}
+	var out []core.Fact
+	for i, e := range ph.Edges {
+		pred := ph.Block().Preds[i]
+		if c, isC := e.(*ssa.Const); isC && c.Value != nil {
+			if c.Value.ExactString() != "true" {
+				continue
+			}
+			iff, isIf := pred.Instrs[len(pred.Instrs)-1].(*ssa.If)
+			if !isIf {
+				return nil
+			}
+			out = append(out, p.FactOf(core.Guard{Cond: iff.Cond, Pol: pred.Succs[0] == ph.Block(), If: iff}))
+			continue
+		}
+		if inner := disjuncts(p, e); inner != nil {
+			out = append(out, inner...)
+			continue
+		}
+		out = append(out, p.FactOf(core.Guard{Cond: e, Pol: true}))
+	}
+	return out
+}
+
+// otherFacts lists the facts that none of the allowed predicates accepts.
+// Used where a rule states that something happens under exactly the given
+// conditions: an extra condition makes the action rarer than the property
+// allows (an over-restriction is as much a violation as a missing guard).
+func otherFacts(fs []core.Fact, allowed ...func(core.Fact) bool) []string {
+	var out []string
+	seen := map[string]bool{}
+	for _, f := range fs {
+		ok := false
+		for _, a := range allowed {
+			if a(f) {
+				ok = true
+			}
+		}
+		// bookkeeping of range loops and of range-over-func bodies says nothing
+		if !ok && (f.R != nil && f.R.Op == "call" && f.R.Name == "len" && f.Op == "<" || strings.Contains(f.String(), "rangefunc") || f.L != nil && f.L.Op == "cell" && f.R != nil && f.R.Op == "const" && strings.HasPrefix(f.R.Name, "-")) {
+			ok = true
+		}
+		if !ok && !seen[f.String()] {
+			seen[f.String()] = true
+			out = append(out, shortStr(f.String()))
+		}
+	}
+	return out
 }
